@@ -309,4 +309,27 @@ theorem C03_model_eval_eq_partial (hw : hasFlag cfg.flags Gen.VM.VERIFY_MINIMALI
   first | exact C03M_eval_eq_partial .. | (apply C03M_eval_eq_partial <;> assumption)
 
 end
+/-- `check_valid_signature` is `IsValidSignatureEncoding` (BIP66 strict DER incl. the hash-type byte) on **every** byte string:
+SIG_DER is raised exactly when Core's predicate is false -/
+theorem C03_model_sigenc_der (sig : Bytes) :
+    checkValidSignature sig = if isValidSignatureEncoding sig then .ok () else .error sigDer := by
+  first | exact C03M_sigenc_der .. | (apply C03M_sigenc_der <;> assumption)
+
+/-- `check_defined_hashtype_signature` is `IsDefinedHashtypeSignature` (non-empty signature: the only way it is called) -/
+theorem C03_model_sigenc_hashtype (sig : Bytes) (h : sig ≠ []) :
+    checkDefinedHashtypeSignature sig =
+      if isDefinedHashtypeSignature sig then .ok () else .error (scriptErr Gen.VM.errno_SIG_HASHTYPE) := by
+  first | exact C03M_sigenc_hashtype .. | (apply C03M_sigenc_hashtype <;> assumption)
+
+/-- `check_public_key_encoding` (STRICTENC) is `IsCompressedOrUncompressedPubKey` -/
+theorem C03_model_pubkey_encoding (blob : Bytes) :
+    checkPublicKeyEncoding blob =
+      if isCompressedOrUncompressedPubKey blob then .ok () else .error (scriptErr Gen.VM.errno_PUBKEYTYPE) := by
+  first | exact C03M_pubkey_encoding .. | (apply C03M_pubkey_encoding <;> assumption)
+
+/-- the WITNESS_PUBKEYTYPE test of `checksig` is `!IsCompressedPubKey` -/
+theorem C03_model_pubkey_compressed (blob : Bytes) :
+    (decide (blob.length ≠ 33) || !(decide (blob.head? = some 2) || decide (blob.head? = some 3))) = !isCompressedPubKey blob := by
+  first | exact C03M_pubkey_compressed .. | (apply C03M_pubkey_compressed <;> assumption)
+
 end Pycoin.VM
